@@ -51,7 +51,7 @@ ASSUMPTIONS = [
     "and six evenly spread writes); pairs are sampled",
     "no fsync / power-loss durability claim is checked (the property makes none)",
 ]
-PROBES = ["second_update_after_repository_moved_on", "recovery_update_after_fault", "stale_new_file_present", "bulk_world_over_8k",
+PROBES = ["second_update_after_repository_moved_on", "recovery_update_after_fault", "stale_new_file_present", "bulk_world_over_8k", "huge_world_over_64k_multibyte", "patch_names_not_in_lexicographic_order",
           "rename_fails_after_all_writes", "first_write_fails", "last_patch_corrupted",
           "local_version_occurs_twice", "empty_to_nonempty", "nonempty_to_empty",
           "sha256_only_index", "window_excludes_local", "patch_chain_len>=3",
@@ -89,7 +89,7 @@ def _scratch():
 
 WORDS = ["alpha", "beta", "gamma", "Package: x", "Version: 1.0-1", " continued", "ünï", "",
          "form\x0cfeed", "nel\x85x", "ls\u2028ps\u2029", "fs\x1cgs\x1d",
-         "Depends: a, b", "..", ". ", "1a", "0a", "3,4c", "d", "#c", "\t tab", "日本"]
+         "Depends: a, b", "..", ". ", "100% %s {0} \\1", "1a", "0a", "3,4c", "d", "#c", "\t tab", "日本"]
 
 
 def _gen_lines(rng, n, uniq):
@@ -133,7 +133,8 @@ def generate(seed, run, tier):
     rs = stream_rng(seed, ID, run, "swarm")
     rf = stream_rng(seed, ID, run, "fault")
     uniq = [0]
-    n = rs.choice([0, 1, 1, 2, 2, 3, 4, 6])
+    huge = False
+    n = rs.choice([0, 1, 1, 2, 2, 3, 4, 6, 12])
     versions = [_gen_lines(rw, rs.choice([0, 1, 3, 6, 10]), uniq)]
     for _ in range(n):
         v = _mutate(rw, versions[-1], uniq)
@@ -159,12 +160,23 @@ def generate(seed, run, tier):
                 uniq[0] += 1
                 v.insert(rw.randrange(len(v) + 1), "bulk %d %032x" % (uniq[0], rw.getrandbits(128)))
         versions[:] = [list(v) for v in versions]
+        if rs.random() < 0.3:
+            huge = True
+            # huge world: several 64 KiB blocks of mostly multi-byte text
+            for v in versions:
+                for k in range(1400):
+                    uniq[0] += 1
+                    v.insert(rw.randrange(len(v) + 1), "bulk %d %s %08x" % (
+                        uniq[0], "".join(rw.choice("日本語テキスト標準üß€") for _ in range(30)),
+                        rw.getrandbits(32)))
     world = {"versions": versions, "families": families, "window": window, "fields": fields,
              "extra_field": rs.random() < 0.3, "trailing_blank": rs.random() < 0.3,
              "index_ws": rs.choice([" ", " ", "  ", "\t", " \t "]),
              "index_trailing_ws": rs.random() < 0.2,
              "stale_new": rs.choice([None, None, None, "stale left-over\n"]),
              "local": local,
+             # patch names are labels; the order of the index is what counts
+             "naming": rs.choice(["date", "date", "counter", "reverse", "labels"]),
              "verbose": rs.random() < 0.3}
     if rs.random() < 0.5:
         # the repository moves on after the first update: one more version is published
@@ -172,7 +184,11 @@ def generate(seed, run, tier):
                                         if len(versions[-1]) > 40 else versions[-1], uniq)
     npairs = 0 if tier == "quick" else 12
     pairs = [[rf.random(), rf.random()] for _ in range(npairs)]
-    return {"world": world, "enumerate": True, "pairs": pairs}
+    case = {"world": world, "enumerate": True, "pairs": pairs}
+    if huge or n >= 12:
+        # the two costly kinds of world: an even spread over the single faults instead of all
+        case["max_singles"] = 12 if huge else 40
+    return case
 
 
 def describe(case):
@@ -220,12 +236,23 @@ def _gz(data):
     return gzip.compress(data, mtime=0)
 
 
+def _patch_names(naming, n):
+    if naming == "counter":
+        return ["Packages.%d" % (i + 1) for i in range(n)]       # .10 sorts before .2
+    if naming == "reverse":
+        return ["2024-01-%02d-0000.%02d" % (40 - i, i) for i in range(n)]
+    if naming == "labels":
+        return ["%s-%d" % (["zulu", "alpha", "mike", "Bravo", "yankee", "1st", "echo"][i % 7], i)
+                for i in range(n)]
+    return ["2024-01-%02d-0000.%02d" % (i + 1, i) for i in range(n)]
+
+
 def build_repo(world, faults):
     """-> (files: url->bytes, fetch_faults, info) with payload/index faults applied."""
     vs = world["versions"]
     n = len(vs) - 1
     patches = [_text(ed_script(vs[i], vs[i + 1])).encode() for i in range(n)]
-    names = ["2024-01-%02d-0000.%02d" % (i + 1, i) for i in range(n)]
+    names = _patch_names(world.get("naming", "date"), n)
     patch_hash_src = list(patches)     # what the index says about each patch
     served = list(patches)             # what is actually served
     fetch_faults = {}
@@ -757,6 +784,10 @@ def execute(case):
         n = 1
         if base is not None:
             singles = enumerate_faults(world, base)
+            cap = case.get("max_singles")
+            if cap and len(singles) > cap:
+                singles = [singles[len(singles) * k // cap] for k in range(cap)]
+                out.count("worlds_with_sampled_single_faults")
             for f in singles:
                 if out.violation is not None:
                     break
@@ -823,6 +854,10 @@ def _probes(out, world, faults, res):
         out.probe("stale_new_file_present")
     if not faults and len(vs[-1]) > 200:
         out.probe("bulk_world_over_8k")
+    if not faults and len(vs[-1]) > 1400:
+        out.probe("huge_world_over_64k_multibyte")
+    if not faults and world.get("naming", "date") != "date" and len(vs) > 2:
+        out.probe("patch_names_not_in_lexicographic_order")
     for f in fired:
         if f[0] == "fs" and f[1] == "rename":
             out.probe("rename_fails_after_all_writes")
@@ -889,7 +924,9 @@ def shrink_candidates(case):
 
 
 def evidence_extra(m):
-    return {"single_faults_exhaustive_per_world": True,
+    return {"single_faults_exhaustive_per_world": "yes, except the worlds counted under "
+            "'worlds_with_sampled_single_faults' (payloads over 128 KiB or 12-patch chains): "
+            "an even spread of 12 resp. 40 of their single faults",
             "exhaustive": False,
             "crash_point_classification": "counters 'crashpoint <op>:<local is old|new|other|"
             "absent>:<.new present>' classify the directory at every write-path operation "
